@@ -461,7 +461,15 @@ class FsmCtx(BaseCtx):
                             m = rp.decode_open(f.body)
                             self.agent_as4[cid] = any(c == 65 for c, _ in m.caps)
                         except ValueError:
-                            pass
+                            m = None
+                        if self.prop == "C01" and (m is None or m.version != 4 or m.true_as != self.cfg["local_as"]):
+                            # the OPEN the agent emits must be one a conformant peer configured for this
+                            # agent accepts: version 4 and the configured AS (in the field or in capability 65)
+                            raise Violation("C01", "open", "agent-open-not-acceptable/%s" % (
+                                "unparsable" if m is None else ("version" if m.version != 4 else "as")),
+                                "OPEN sent on connection #%d: %s; configured local AS %s"
+                                % (cid, "does not parse" if m is None else "version %s, AS %s (field %s)" % (m.version, m.true_as, getattr(m, "asn", "?")),
+                                   self.cfg["local_as"]))
                         break
 
     def step(self, op):
